@@ -252,3 +252,59 @@ Example ex_run_dst :
   existsb is_fault (map dlab (snd r2)) = false /\ is_final (ds x2) = true /\
   result (ds x2) = Some false /\ forallb (fun n => dmem n (dd x2)) [0; 1; 2; 3; 4] = true.
 Proof. vm_compute. repeat split; reflexivity. Qed.
+
+(* ===== extension round, protocol builder: liveness / end-to-end statements of the system WITH
+   destination (Proofs/CopyImplDstLive.v) and the tie of the model's program order to the source ===== *)
+From Oras Require Import Generated.GC02 Model.CopyImplSrc Proofs.CopyImplSrc Proofs.CopyImplDstLive.
+
+(* with dst.Exists answered by the destination (no longer a free choice) the system still never
+   deadlocks: every reachable state in which the top-level syncutil.Go has not returned has an enabled
+   step that is not a fault / cancellation choice *)
+Theorem C02_no_deadlock_dst_protocol : forall succ K ext roots d0,
+  (forall n m, In m (succ n) -> m < n) ->
+  forall x, 1 <= K -> DReachable succ K ext roots d0 x -> is_final (ds x) = false ->
+  exists dl x', progress_label (dlab dl) = true /\ dstep succ x dl = Some x'.
+Proof. exact dno_deadlock. Qed.
+Print Assumptions C02_no_deadlock_dst_protocol.
+
+(* ... and every execution has at most bound(graph) steps *)
+Theorem C02_terminates_dst_protocol : forall succ K ext roots d0,
+  (forall n m, In m (succ n) -> m < n) -> forall N, (forall r, In r roots -> r < N) ->
+  forall ls x, drun succ (dinit K ext roots d0) ls = Some x -> length ls <= bound succ ext roots N.
+Proof. exact dterminates. Qed.
+Print Assumptions C02_terminates_dst_protocol.
+
+(* content enters the destination only through a push of the call (one that returns nil, or one that
+   stored and then failed) *)
+Theorem C02_dst_written_only_by_push_protocol : forall succ x dl x' n, dstep succ x dl = Some x' -> In n (dd x') ->
+  In n (dd x) \/
+  (exists t, (dl = DL (LPush t true) \/ dl = DPushFailStored t) /\ n = t_node (tasks (ds x) t)).
+Proof. exact dst_written_only_by_push. Qed.
+Print Assumptions C02_dst_written_only_by_push_protocol.
+
+(* one call on a closed destination, end to end: closed throughout, nothing lost; once the call has
+   returned: a fault or cancellation anywhere => error; no fault => nil and the closure of the roots stored *)
+Theorem C02_call_summary_protocol : forall succ K ext roots d0,
+  (forall n m, In m (succ n) -> m < n) ->
+  forall ls x, dclosed succ d0 -> drun succ (dinit K ext roots d0) ls = Some x ->
+  dclosed succ (dd x) /\
+  (forall n, In n d0 -> In n (dd x)) /\
+  (is_final (ds x) = true ->
+     (existsb is_fault (map dlab ls) = true -> result (ds x) = Some true) /\
+     (existsb is_fault (map dlab ls) = false -> result (ds x) = Some false /\
+        forall r n, In r roots -> dreach succ r n -> In n (dd x))).
+Proof. exact call_summary. Qed.
+Print Assumptions C02_call_summary_protocol.
+
+(* TIE TO THE SOURCE.  The program-counter order of the model (Model/CopyImplSrc.v: which Go calls each
+   pc stands for) equals the call sequences that the translator (kind callseq) re-reads from copy.go
+   (copyGraph incl. fn), internal/syncutil/limit.go (Go, LimitedRegion.Start / End) and extendedcopy.go
+   on every run: TryCommit, [defer close], Exists, FindSuccessors, region.End BEFORE the nested
+   syncutil.Go, the wait loop's TryCommit, region.Start, then the copy; Go = dispatch (LimitRegion,
+   Start, eg.Go), child (deferred End, fn), Wait, Cause; the outer closure = End, copyGraph, Start;
+   Start only acquires, End only releases. *)
+Theorem C02_source_order_protocol :
+  c02proto_calls_fn = fn_calls /\ c02proto_calls_go = go_calls /\ c02proto_calls_ext = ext_calls /\
+  c02proto_calls_start = start_calls /\ c02proto_calls_end = end_calls.
+Proof. exact source_order. Qed.
+Print Assumptions C02_source_order_protocol.
